@@ -498,6 +498,8 @@ def jobs(tier, seed):
                     dict(name="%s %s by-value result" % (sbx, st.name), fn=check_load, kw=dict(st=st, form="byval_ret")),
                     dict(name="%s %s round trip" % (sbx, st.name), fn=check_roundtrip, kw=dict(st=st))]
             out.append(Job("C08_%s_%s" % (sbx, st.name), src, chks, compare_logs=True))
+    out.append(Job("C08_BM_vsh_other_destroyed", '#define C08_EARLIER_DESTROYED\n#include "C08_bm.inc"\n',
+                   [dict(name="BM struct with Fn*, Fn and int* fields after an earlier sandbox was destroyed: " + k, fn=check_bm_vsh, kw=dict(k=k)) for k in ("k_bm_load_vsh", "k_bm_store_vsh")], native=False))
     out.append(Job("C08_BM_vsh", '#include "C08_bm.inc"\n', [dict(name="BM struct with Fn*, Fn and int* fields: " + k, fn=check_bm_vsh, kw=dict(k=k)) for k in ("k_bm_load_vsh", "k_bm_store_vsh", "k_bm_byval_vsh")], native=False))
     from specs import C07
     out.append(Job("C08_BM_nested", '#include "C07_bm2.inc"\n', [dict(name="BM nested struct " + k, fn=C07.check_bm2, kw=dict(k=k)) for k in ("k_bm_store_nested", "k_bm_load_nested")], native=False))
